@@ -41,8 +41,11 @@ Gcd(a, b) == IF b = 0 THEN a ELSE Gcd(b, a % b)
 \* fx: the IEEE-double computation of this value is exact (dyadic rational
 \* reached through exact steps); discontinuous operators applied to a value
 \* that is not fx, exactly at a discontinuity, give an inexact result.
+\* rk ("risk"): somewhere below, an operator that can fail produced a value the
+\* model knows only roughly -- the real evaluation may legitimately end in an
+\* arithmetic error instead of this value.
 Out(kind, what, ex, n, d, sg, mag, fx) ==
-  [kind |-> kind, what |-> what, ex |-> ex, n |-> n, d |-> d, sg |-> sg, mag |-> mag, fx |-> fx]
+  [kind |-> kind, what |-> what, ex |-> ex, n |-> n, d |-> d, sg |-> sg, mag |-> mag, fx |-> fx, rk |-> FALSE]
 Err(w) == Out("err", w, FALSE, 0, 1, "u", "mid", FALSE)
 Exc(w) == Out("exc", w, FALSE, 0, 1, "u", "mid", FALSE)
 Ix(sg, mag) == Out("val", "", FALSE, 0, 1, sg, mag, FALSE)
@@ -144,7 +147,11 @@ ArcV(a, which) ==   \* asin / acos
 UnaryNames == {"-", "+", "not", "ceil", "trunc", "floor", "abs", "sqrt", "exp", "ln",
                "sin", "cos", "tan", "acos", "asin", "atan"}
 
-ApplyU(op, a) ==
+CanFail == {"sqrt", "exp", "ln", "sin", "cos", "tan", "atan", "asin", "acos",
+            "e", "^", "/", "div", "mod", "round", "*", "+", "-"}
+Risk(r, risky) == IF r.kind = "val" /\ risky THEN [r EXCEPT !.rk = TRUE] ELSE r
+
+ApplyU0(op, a) ==
   CASE op = "-" -> Neg(a)
     [] op = "+" -> a
     [] op = "not" -> NotV(a)
@@ -156,10 +163,12 @@ ApplyU(op, a) ==
     [] op \in {"sin", "tan", "atan"} -> TrigV(a, Zero)
     [] op = "cos" -> TrigV(a, One)
     [] op \in {"asin", "acos"} -> ArcV(a, op)
+ApplyU(op, a) == LET r == ApplyU0(op, a) IN Risk(r, a.rk \/ (op \in CanFail \ {"-", "+"} /\ ~r.ex))
 
 (* ---- binary ------------------------------------------------------ *)
 MulV(a, b) ==
-  IF a.ex /\ b.ex THEN Qf(a.n * b.n, a.d * b.d, a.fx /\ b.fx)
+  IF (IsZero(a) /\ a.fx /\ ~Huge(b)) \/ (IsZero(b) /\ b.fx /\ ~Huge(a)) THEN Zero   \* 0 * x = 0 exactly
+  ELSE IF a.ex /\ b.ex THEN Qf(a.n * b.n, a.d * b.d, a.fx /\ b.fx)
   ELSE IF IsZero(a) \/ IsZero(b) THEN Zero
   ELSE IF Huge(a) \/ Huge(b) THEN (IF Tiny(a) \/ Tiny(b) THEN Unknown ELSE Raise("overflow"))
   ELSE IF Tiny(a) /\ Tiny(b) THEN Zero
@@ -198,9 +207,9 @@ ModV(a, b) ==
   ELSE
   LET ta == IntFn(a, "trunc")
       tb == IntFn(b, "trunc") IN
-  IF Huge(ta) \/ Huge(tb) THEN Raise("overflow")
+  IF tb.ex /\ tb.n = 0 THEN Err("div0")
+  ELSE IF Huge(ta) \/ Huge(tb) THEN Raise("overflow")
   ELSE IF ~ta.ex \/ ~tb.ex THEN Unknown
-  ELSE IF tb.n = 0 THEN Err("div0")
   ELSE LET r == AbsI(ta.n) % AbsI(tb.n) IN Q(IF ta.n < 0 THEN -r ELSE r, 1)
 
 Pow10(k) == CASE k = 0 -> 1 [] k = 1 -> 10 [] k = 2 -> 100 [] k = 3 -> 1000 [] k = 4 -> 10000
@@ -227,6 +236,14 @@ EV(a, b) ==
 RECURSIVE PowAcc(_, _, _)
 PowAcc(acc, a, k) == IF k = 0 \/ ~acc.ex THEN acc ELSE PowAcc(MulV(acc, a), a, k - 1)
 
+\* |base|^k exceeds the range of a double (about 1.8e308): decided on the
+\* number of decimal digits of the base, or on base >= 2 and k >= 1024
+Digits10(n) == IF n >= 10000 THEN 4 ELSE IF n >= 1000 THEN 3 ELSE IF n >= 100 THEN 2 ELSE IF n >= 10 THEN 1 ELSE 0
+PowOverflows(base, k) ==
+  LET m == AbsI(base.n) \div base.d IN
+  \/ m >= 2 /\ k >= 1024
+  \/ Digits10(m) >= 1 /\ k * Digits10(m) >= 309
+
 PowV(a, b) ==
   IF a.ex /\ b.ex THEN
      IF b.d = 1 THEN
@@ -239,8 +256,8 @@ PowV(a, b) ==
                          ELSE IF a.n > 0 THEN Qf(a.d, a.n, a.fx) ELSE Qf(-a.d, -a.n, a.fx)
                  r == PowAcc(One, base, AbsI(k)) IN
              IF r.ex THEN r
-             ELSE IF AbsI(k) >= 1024 /\ AbsI(base.n) > base.d THEN Raise("overflow")
-             ELSE IF AbsI(k) >= 1100 THEN Zero
+             ELSE IF PowOverflows(base, AbsI(k)) THEN Raise("overflow")
+             ELSE IF AbsI(k) >= 1100 /\ AbsI(base.n) < base.d THEN Zero
              ELSE Ix(IF a.n > 0 \/ k % 2 = 0 THEN "p" ELSE "n", "mid")
      ELSE \* fractional exponent
         IF a.n < 0 THEN Raise("domain")
@@ -265,7 +282,8 @@ RoundEvenI(n, d) ==
 RI(n, d) == IF "RoundPythonBuiltin" \in Dev THEN RoundEvenI(n, d) ELSE RoundI(n, d)
 
 RoundV(a, b) ==
-  IF "RoundPythonBuiltin" \in Dev /\ b.ex /\ b.d # 1 THEN Exc("type")
+  \* as-is: round(x, y) of Python needs an int y; every float y is a TypeError
+  IF "RoundPythonBuiltin" \in Dev /\ ((b.ex /\ b.d # 1) \/ (~b.ex /\ ~Huge(b))) THEN Exc("type")
   ELSE
   LET tb == IntFn(b, "trunc") IN
   IF Huge(tb) THEN Raise("overflow")
@@ -313,7 +331,7 @@ OrV(a, b) == IF Truth(a) = "t" \/ Truth(b) = "t" THEN One
 CmpOps == {"=", "!=", "<>", "<", ">", "<=", ">="}
 BinaryNames == {"e", "^", "*", "/", "div", "mod", "+", "-", "round", "and", "or"} \cup CmpOps
 
-ApplyB(op, a, b) ==
+ApplyB0(op, a, b) ==
   CASE op = "e" -> EV(a, b)
     [] op = "^" -> PowV(a, b)
     [] op = "*" -> MulV(a, b)
@@ -325,6 +343,7 @@ ApplyB(op, a, b) ==
     [] op \in CmpOps -> CmpV(op, a, b)
     [] op = "and" -> AndV(a, b)
     [] op = "or" -> OrV(a, b)
+ApplyB(op, a, b) == LET r == ApplyB0(op, a, b) IN Risk(r, a.rk \/ b.rk \/ (op \in CanFail /\ ~r.ex))
 
 (* ------------------------------------------------------------------ *)
 (* tokens                                                             *)
@@ -563,5 +582,5 @@ Agree(x, y) ==
   /\ x.kind = y.kind
   /\ (x.kind = "val" /\ x.ex /\ y.ex) => (x.n = y.n /\ x.d = y.d)
   /\ (x.kind = "val") => (x.ex = y.ex)
-Proj(x) == [kind |-> x.kind, what |-> x.what, ex |-> x.ex, n |-> x.n, d |-> x.d]
+Proj(x) == [kind |-> x.kind, what |-> x.what, ex |-> x.ex, n |-> x.n, d |-> x.d, rk |-> x.rk]
 =============================================================================
